@@ -22,6 +22,12 @@ func (x *c20SX) call(call *ast.CallExpr, st *c20St) []c20EV {
 		return x.builtin(b, call, st)
 	}
 	fn := callee(x.info, call)
+	if fn == nil {
+		return x.callValue(call, st)
+	}
+	if out, ok := x.builderCall(fn, call, st); ok {
+		return out
+	}
 	// receiver and arguments
 	var exprs []ast.Expr
 	hasRecv := false
@@ -86,6 +92,10 @@ func (x *c20SX) apply(fn *types.Func, call *ast.CallExpr, recv *c20V, args []c20
 			return c20One(st.abort(call, "%s through a function value", why), c20V{})
 		}
 		return c20One(st, c20Unknown("call of a function value `%s`", x.srcOf(call)))
+	}
+	inlined := fn.Pkg() == x.cx.pk.Types && x.opaque(fn) == "" && x.cx.byObj[fn] != nil && x.cx.byObj[fn].Decl.Body != nil
+	if !inlined && c20HasClosure(args) {
+		return c20One(st.abort(call, "`%s` passes a function literal to a function that is not inlined (the closure escapes the executor's model)", x.srcOf(call)), c20V{})
 	}
 	if v, ok := x.model(fn, call, recv, args, st); ok {
 		return c20One(st, v)
